@@ -1,8 +1,12 @@
 /-
   C20 — the whole run: a snapshot is a sequence of key groups with pairwise
-  distinct keys (one DB); the worker's entry stream is their concatenation, cut
-  ANYWHERE into a first part and a resumed part (also between the chunks of one
-  key). Every key of the snapshot, every pre-existing key of the target and
+  distinct keys (one DB; "distinct" AFTER TargetDb / TargetDbMap and replaceHashTag
+  rewriting); the worker's entry stream is their concatenation — with keyless
+  entries (AUX fields, functions) anywhere between, see `StreamOf` — and may be cut
+  ANYWHERE into a first part and a CONTINUED part (the same loop going on, also
+  between the chunks of one key: `Run.resume`; that is the induction step of the
+  whole-run theorems, NOT what a restarted replay does — for the restart see
+  Props/C20Rerun.lean). Every key of the snapshot, every pre-existing key of the target and
   every other cell of the keyspace is accounted for, for each policy, for the
   plain and for the bidirectional worker.
 -/
@@ -165,9 +169,11 @@ theorem bisync_runner (pol : Policy) (cfg : Cfg) : Runner (runBisync pol cfg) (b
 
 /-! ## every split point -/
 
-/-- the run over a stream cut at ANY point — first part, then resumed from the
-    remembered state and the target the first part left, unless it failed — IS
-    the run over the whole stream (requests, outcome, state, target) -/
+/-- the run over a stream cut at ANY point — first part, then CONTINUED by the same
+    loop from the remembered state and the target the first part left, unless it
+    failed — IS the run over the whole stream (requests, outcome, state, target).
+    (`resume` = the loop going on. A RESTART after an interruption has a fresh
+    state and begins at entry 0: Props/C20Rerun.lean.) -/
 theorem resumed_is_whole (pol : Policy) (cfg : Cfg) (st : RState) (t : Target) (a b es : List Entry) (h : a ++ b = es) :
     (runPlain pol cfg st t a).resume (fun st' t' => runPlain pol cfg st' t' b) = runPlain pol cfg st t es := by
   rw [← h, runPlain_split]
@@ -362,7 +368,8 @@ theorem bad_data_whole_bisync (pol : Policy) (cfg : Cfg) (st : RState) (t : Targ
   · subst h; simp [bisyncEff, hu, hbad]
 
 /-! ## … and for every split of the stream (the statements above are about `run (flat gs)`;
-    a run cut anywhere and resumed is that run: `resumed_is_whole`) -/
+    a run cut anywhere and continued by the same loop is that run: `resumed_is_whole`; these four only restate
+    the theorems above through that equality) -/
 
 theorem replace_whole_resumed (cfg : Cfg) (st : RState) (t : Target) (gs : List KGroup) (a b : List Entry)
     (hab : a ++ b = flat gs) (hg : ∀ g ∈ gs, GoodGroup g) (hk : (gs.map KGroup.key).Nodup) :
@@ -509,6 +516,154 @@ theorem error_whole_stop_worker (cfg : Cfg) (c : Nat) (st : RState) (t : Target)
   have hs : snapshotObj cfg (t.inDb p.dbn) p.1 p.2 = snapshotObj cfg t p.1 p.2 := rfl
   rw [o2 p hp]; simp [plainEff, hn p hp, Eff.result, hs]
 
+/-! ## the stream a worker really gets: AUX fields and function libraries between the key groups
+
+  `es` is ANY entry list whose keyed entries, in order, are the chunks of the groups `gs`
+  (`StreamOf`); the keyless entries (`otype` func / aux — `redis-ver`, `redis-bits`, lua, function
+  libraries) may stand anywhere, also between the chunks of a key. -/
+
+def StreamOf (es : List Entry) (gs : List KGroup) : Prop := es.filter (fun e => !keyless e) = flat gs
+
+theorem whole_plain_stream (pol : Policy) (cfg : Cfg) (st : RState) (t : Target) (gs : List KGroup) (es : List Entry)
+    (hs : StreamOf es gs) (hg : ∀ g ∈ gs, GoodGroup g) (hk : (gs.map KGroup.key).Nodup) :
+    (∀ d k, ¬ (d = t.cur ∧ k ∈ gs.map KGroup.key) → (runPlain pol cfg st t es).tgt.ks d k = t.ks d k) ∧
+    ((∀ g ∈ gs, (plainEff pol cfg t g).isStop = false) →
+      (runPlain pol cfg st t es).out = .ok ∧
+      ∀ g ∈ gs, (runPlain pol cfg st t es).tgt.get g.key = (plainEff pol cfg t g).result (t.get g.key)) ∧
+    (∀ pre g post out, gs = pre ++ g :: post → (∀ p ∈ pre, (plainEff pol cfg t p).isStop = false) →
+      plainEff pol cfg t g = .stop out →
+      (runPlain pol cfg st t es).out = out ∧
+      (∀ p ∈ pre, (runPlain pol cfg st t es).tgt.get p.key = (plainEff pol cfg t p).result (t.get p.key)) ∧
+      (∀ d k, ¬ (d = t.cur ∧ k ∈ pre.map KGroup.key) → (runPlain pol cfg st t es).tgt.ks d k = t.ks d k)) := by
+  obtain ⟨h1, _, h3⟩ := runPlain_strip pol cfg es st t
+  rw [h1, h3, hs]
+  exact whole_plain pol cfg st t gs hg hk
+
+theorem whole_bisync_stream (pol : Policy) (cfg : Cfg) (st : RState) (t : Target) (gs : List KGroup) (es : List Entry)
+    (hs : StreamOf es gs) (hg : ∀ g ∈ gs, GoodGroup g) (hk : (gs.map KGroup.key).Nodup) :
+    (∀ d k, ¬ (d = t.cur ∧ k ∈ gs.map KGroup.key) → (runBisync pol cfg st t es).tgt.ks d k = t.ks d k) ∧
+    ((∀ g ∈ gs, (bisyncEff pol cfg t g).isStop = false) →
+      (runBisync pol cfg st t es).out = .ok ∧
+      ∀ g ∈ gs, (runBisync pol cfg st t es).tgt.get g.key = (bisyncEff pol cfg t g).result (t.get g.key)) ∧
+    (∀ pre g post out, gs = pre ++ g :: post → (∀ p ∈ pre, (bisyncEff pol cfg t p).isStop = false) →
+      bisyncEff pol cfg t g = .stop out →
+      (runBisync pol cfg st t es).out = out ∧
+      (∀ p ∈ pre, (runBisync pol cfg st t es).tgt.get p.key = (bisyncEff pol cfg t p).result (t.get p.key)) ∧
+      (∀ d k, ¬ (d = t.cur ∧ k ∈ pre.map KGroup.key) → (runBisync pol cfg st t es).tgt.ks d k = t.ks d k)) := by
+  obtain ⟨h1, _, h3⟩ := runBisync_strip pol cfg es st t
+  rw [h1, h3, hs]
+  exact whole_bisync pol cfg st t gs hg hk
+
+theorem replace_whole_stream (cfg : Cfg) (st : RState) (t : Target) (gs : List KGroup) (es : List Entry)
+    (hs : StreamOf es gs) (hg : ∀ g ∈ gs, GoodGroup g) (hk : (gs.map KGroup.key).Nodup) :
+    (runPlain .replace cfg st t es).out = .ok ∧
+    (∀ g ∈ gs, (runPlain .replace cfg st t es).tgt.get g.key = some (snapshotObj cfg t g.1 g.2)) ∧
+    (∀ d k, ¬ (d = t.cur ∧ k ∈ gs.map KGroup.key) → (runPlain .replace cfg st t es).tgt.ks d k = t.ks d k) := by
+  obtain ⟨h1, _, h3⟩ := runPlain_strip .replace cfg es st t
+  rw [h1, h3, hs]
+  exact replace_whole cfg st t gs hg hk
+
+theorem ignore_whole_stream (cfg : Cfg) (st : RState) (t : Target) (gs : List KGroup) (es : List Entry)
+    (hs : StreamOf es gs) (hg : ∀ g ∈ gs, GoodGroup g) (hk : (gs.map KGroup.key).Nodup) :
+    (runPlain .ignore cfg st t es).out = .ok ∧
+    (∀ g ∈ gs, ∀ o, t.get g.key = some o → (runPlain .ignore cfg st t es).tgt.get g.key = some o) ∧
+    (∀ g ∈ gs, t.get g.key = none → (runPlain .ignore cfg st t es).tgt.get g.key = some (snapshotObj cfg t g.1 g.2)) ∧
+    (∀ d k, ¬ (d = t.cur ∧ k ∈ gs.map KGroup.key) → (runPlain .ignore cfg st t es).tgt.ks d k = t.ks d k) := by
+  obtain ⟨h1, _, h3⟩ := runPlain_strip .ignore cfg es st t
+  rw [h1, h3, hs]
+  exact ignore_whole cfg st t gs hg hk
+
+/-- the worker with DB selection over a real stream (AUX entries carry the DB of their place in the file and make the
+    worker SELECT; functions carry −1): the keyspace and the outcome are those of the worker over the keyed entries -/
+theorem whole_worker_plain_stream (pol : Policy) (cfg : Cfg) (c : Nat) (st : RState) (t : Target) (gs : List KGroup)
+    (es : List Entry) (hs : StreamOf es gs)
+    (hc : t.cur = c) (hg : ∀ g ∈ gs, GoodGroup g ∧ g.oneDb) (hk : (gs.map KGroup.cell).Nodup) :
+    (∀ d k, (d, k) ∉ gs.map KGroup.cell →
+      (workerTarget t (runWorker false pol cfg c st t es)).ks d k = t.ks d k) ∧
+    ((∀ g ∈ gs, (plainEff pol cfg (t.inDb g.dbn) g).isStop = false) →
+      lastOut (runWorker false pol cfg c st t es) = .ok ∧
+      ∀ g ∈ gs, (workerTarget t (runWorker false pol cfg c st t es)).ks g.dbn g.key
+        = (plainEff pol cfg (t.inDb g.dbn) g).result (t.ks g.dbn g.key)) ∧
+    (∀ pre g post out, gs = pre ++ g :: post → (∀ p ∈ pre, (plainEff pol cfg (t.inDb p.dbn) p).isStop = false) →
+      plainEff pol cfg (t.inDb g.dbn) g = .stop out →
+      lastOut (runWorker false pol cfg c st t es) = out ∧
+      (∀ p ∈ pre, (workerTarget t (runWorker false pol cfg c st t es)).ks p.dbn p.key
+        = (plainEff pol cfg (t.inDb p.dbn) p).result (t.ks p.dbn p.key)) ∧
+      (∀ d k, (d, k) ∉ pre.map KGroup.cell → (workerTarget t (runWorker false pol cfg c st t es)).ks d k = t.ks d k)) := by
+  obtain ⟨_, b2, b3⟩ := runWorker_is_runWG_plain pol cfg es c st t
+  have hdb : ∀ e ∈ es, keyless e = false → ∃ d : Nat, e.db = Int.ofNat d := by
+    intro e he hk'
+    have : e ∈ flat gs := by rw [← hs]; exact List.mem_filter.mpr ⟨he, by simp [hk']⟩
+    obtain ⟨g, hg', heg⟩ := List.mem_flatMap.mp this
+    exact ⟨g.dbn, (hg g hg').2 e heg⟩
+  obtain ⟨s1, _, s3⟩ := runWG_strip (runPlain pol cfg)
+    (fun st t e h => by
+      obtain ⟨a, b, c'⟩ := runPlain_keyless pol cfg st t e [] h
+      exact ⟨by rw [a]; rfl, by rw [b]; rfl, by rw [c']; rfl⟩)
+    (fun st t e => (runPlain_inv pol cfg [e] st t).1)
+    es c c st t t hc hc rfl rfl rfl hdb
+  rw [b2, b3, s1, s3, hs]
+  exact (plain_runner pol cfg).wholeW gs c st t hc hg hk
+
+/-! ## replaceHashTag: a good key group stays good under `retag` (so the whole-run theorems apply to what the worker
+    really replays — with `Nodup` of the REWRITTEN keys) -/
+
+theorem retag_value (b : Bool) (e0 : Entry) (rest : List Entry) (g : Group e0 rest) (v : Value e0 rest)
+    (ha : ∀ c ∈ e0.cmds ++ rest.flatMap (·.cmds), c.args ≠ [] ∧ (c.name = sXGROUP → 2 ≤ c.args.length)) :
+    Value (retag b e0) (rest.map (retag b)) := by
+  cases b with
+  | false =>
+    have h0 : ∀ e : Entry, retag false e = e := fun e => by simp [retag]
+    rw [h0]
+    have : rest.map (retag false) = rest := by
+      rw [show retag false = id from funext h0]; exact List.map_id rest
+    rw [this]; exact v
+  | true =>
+    have hk0 : (retag true e0).key = stripTag e0.key := by simp [retag, g.data]
+    have hc0 : (retag true e0).cmds = e0.cmds.map (rewriteCmd e0.key (stripTag e0.key)) := by simp [retag, g.data]
+    refine ⟨?_, ?_, ?_, ?_⟩
+    · intro c hc
+      rw [hc0] at hc
+      obtain ⟨c', hc', rfl⟩ := List.mem_map.mp hc
+      rw [hk0]
+      have := ha c' (List.mem_append_left _ hc')
+      exact rewriteCmd_cmdKey _ _ c' (v.c0 c' hc') this.1 this.2
+    · rw [hc0]; simp [v.ne]
+    · intro e he c hc
+      obtain ⟨e', he', rfl⟩ := List.mem_map.mp he
+      have hl := g.later e' he'
+      have hc1 : (retag true e').cmds = e'.cmds.map (rewriteCmd e0.key (stripTag e0.key)) := by simp [retag, hl.data, hl.key]
+      rw [hc1] at hc
+      obtain ⟨c', hc', rfl⟩ := List.mem_map.mp hc
+      rw [hk0]
+      have := ha c' (List.mem_append_right _ (List.mem_flatMap.mpr ⟨e', he', hc'⟩))
+      exact rewriteCmd_cmdKey _ _ c' (v.cr e' he' c' hc') this.1 this.2
+    · intro e he
+      obtain ⟨e', he', rfl⟩ := List.mem_map.mp he
+      have hl := g.later e' he'
+      have h1 : (retag true e').expireAt = e'.expireAt := by simp [retag, hl.data]
+      have h2 : (retag true e0).expireAt = e0.expireAt := by simp [retag, g.data]
+      rw [h1, h2]; exact v.exp e' he'
+
+/-- the group as the worker replays it under replaceHashTag -/
+def retagG (b : Bool) (g : KGroup) : KGroup := (retag b g.1, g.2.map (retag b))
+
+theorem retagG_good (b : Bool) (g : KGroup) (h : GoodGroup g)
+    (ha : ∀ c ∈ g.1.cmds ++ g.2.flatMap (·.cmds), c.args ≠ [] ∧ (c.name = sXGROUP → 2 ≤ c.args.length)) :
+    GoodGroup (retagG b g) := ⟨retag_group b g.1 g.2 h.1, retag_value b g.1 g.2 h.1 h.2 ha⟩
+
+/-- **replace under replaceHashTag, whole snapshot**: every REWRITTEN key ends with the (rewritten) snapshot value -/
+theorem replace_whole_retag (b : Bool) (cfg : Cfg) (st : RState) (t : Target) (gs : List KGroup)
+    (hg : ∀ g ∈ gs, GoodGroup g)
+    (ha : ∀ g ∈ gs, ∀ c ∈ g.1.cmds ++ g.2.flatMap (·.cmds), c.args ≠ [] ∧ (c.name = sXGROUP → 2 ≤ c.args.length))
+    (hk : ((gs.map (retagG b)).map KGroup.key).Nodup) :
+    (runPlain .replace cfg st t (flat (gs.map (retagG b)))).out = .ok ∧
+    (∀ g ∈ gs, (runPlain .replace cfg st t (flat (gs.map (retagG b)))).tgt.get (retagG b g).key
+      = some (snapshotObj cfg t (retagG b g).1 (retagG b g).2)) := by
+  obtain ⟨h1, h2, _⟩ := replace_whole cfg st t (gs.map (retagG b)) (by
+    intro x hx; obtain ⟨g, hg', rfl⟩ := List.mem_map.mp hx; exact retagG_good b g (hg g hg') (ha g hg')) hk
+  exact ⟨h1, fun g hg' => h2 _ (List.mem_map_of_mem (f := retagG b) hg')⟩
+
 /-! ## non-vacuity: a snapshot of two keys — `h` in three chunks (held by the target), `i` small enough for RESTORE (absent) -/
 
 def exG1 : KGroup := (exE0, [exE1, exE2])
@@ -569,6 +724,63 @@ example : (runBisync .replace exCfg none exTBadK (flat ([exG1] ++ exG2 :: []))).
   (bad_data_whole_bisync .replace exCfg none exTBadK [exG1] [] exG2 ex_good'' (by decide) (by intro p hp; simp at hp; subst hp; decide) (by decide) (by decide) (Or.inr rfl)).1
 example : (runBisync .replace exCfg none exTBadK [exE0, exE1, exE2, exK]).tgt.get [105] = none := by decide
 
+/-! in-file instances of every theorem above that had none (hypotheses discharged on the example snapshot) -/
+def exTE : Target := { exT with ks := fun _ _ => none }
+theorem ex_good2 : ∀ g ∈ [exG2] ++ exG1 :: [], GoodGroup g := ex_good'
+example : (runPlain .error exCfg none exTE (flat [exG1, exG2])).out = .ok :=
+  (error_whole_clean exCfg none exTE [exG1, exG2] ex_good ex_nodup (by intro g _; rfl)).1
+example : (runBisync .replace exCfg none exT (flat [exG1, exG2])).tgt.get [105] = some (snapshotObj exCfg exT exK []) :=
+  (replace_whole_bisync exCfg none exT [exG1, exG2] ex_good ex_nodup (fun _ _ _ => rfl)).2.1 exG2 (by simp)
+example : (runBisync .ignore exCfg none exT (flat [exG1, exG2])).tgt.get [104] = some { val := .old 0, exp := 777 } :=
+  (ignore_whole_bisync exCfg none exT [exG1, exG2] ex_good ex_nodup (fun _ _ _ _ => rfl)).2.1 exG1 (by simp) _ rfl
+example : (runBisync .error exCfg none exTE (flat [exG1, exG2])).out = .ok :=
+  (error_whole_clean_bisync exCfg none exTE [exG1, exG2] ex_good ex_nodup (by intro g _; rfl) (fun _ _ _ => rfl)).1
+example : (runBisync .error exCfg none exT (flat ([exG2] ++ exG1 :: []))).out = .errExists :=
+  (error_whole_stop_bisync exCfg none exT [exG2] [] exG1 _ ex_good2 (by decide) (by intro p hp; simp at hp; subst hp; rfl)
+    (fun _ _ _ => rfl) rfl).1
+-- the same loop, cut after two of the three chunks of `h` and continued
+example : ((runPlain .replace exCfg none exT [exE0, exE1]).resume fun st' t' => runPlain .replace exCfg st' t' [exE2, exK]).out = .ok :=
+  (replace_whole_resumed exCfg none exT [exG1, exG2] [exE0, exE1] [exE2, exK] rfl ex_good ex_nodup).1
+example : ((runPlain .ignore exCfg none exT [exE0]).resume fun st' t' => runPlain .ignore exCfg st' t' [exE1, exE2, exK]).out = .ok :=
+  (ignore_whole_resumed exCfg none exT [exG1, exG2] [exE0] [exE1, exE2, exK] rfl ex_good ex_nodup).1
+example : ((runPlain .error exCfg none exT [exK, exE0]).resume fun st' t' => runPlain .error exCfg st' t' [exE1, exE2]).out = .errExists :=
+  (error_whole_stop_resumed exCfg none exT [exG2] [] exG1 _ [exK, exE0] [exE1, exE2] rfl ex_good2 (by decide)
+    (by intro p hp; simp at hp; subst hp; rfl) rfl).1
+example : ∀ d k, ¬ (d = exT.cur ∧ k ∈ [exG1, exG2].map KGroup.key) →
+    ((runBisync .replace exCfg none exT [exE0]).resume fun st' t' => runBisync .replace exCfg st' t' [exE1, exE2, exK]).tgt.ks d k
+      = exT.ks d k :=
+  (whole_bisync_resumed .replace exCfg none exT [exG1, exG2] [exE0] [exE1, exE2, exK] rfl ex_good ex_nodup).1
+-- keyless entries in the stream: an AUX field before, between the chunks of `h`, and a function library behind
+def exAux : Entry := { exE0 with key := [114], otype := .aux, first := true, splited := false, cmds := [] }
+def exFn : Entry := { exE0 with db := -1, key := [], otype := .func, splited := false, cmds := [{ name := [102], args := [[120]] }] }
+theorem ex_stream : StreamOf [exAux, exE0, exAux, exE1, exE2, exFn, exK] [exG1, exG2] := by unfold StreamOf; decide
+example : (runPlain .replace exCfg none exT [exAux, exE0, exAux, exE1, exE2, exFn, exK]).tgt.get [104]
+    = some (snapshotObj exCfg exT exE0 [exE1, exE2]) :=
+  (replace_whole_stream exCfg none exT [exG1, exG2] _ ex_stream ex_good ex_nodup).2.1 exG1 (by simp)
+example : (runPlain .ignore exCfg none exT [exAux, exE0, exAux, exE1, exE2, exFn, exK]).out = .ok :=
+  (ignore_whole_stream exCfg none exT [exG1, exG2] _ ex_stream ex_good ex_nodup).1
+example : ∀ d k, ¬ (d = exT.cur ∧ k ∈ [exG1, exG2].map KGroup.key) →
+    (runBisync .error exCfg none exT [exAux, exE0, exAux, exE1, exE2, exFn, exK]).tgt.ks d k = exT.ks d k :=
+  (whole_bisync_stream .error exCfg none exT [exG1, exG2] _ ex_stream ex_good ex_nodup).1
+example : (runPlain .replace exCfg none exT [exAux, exE0, exAux, exE1, exE2, exFn, exK]).reqs.contains (Req.raw { name := [102], args := [[120]] }) = true := by decide
+-- replaceHashTag: the group of `{h}` is good after `retag`, on the key `h`
+def exTagE : Entry := { exR with key := [123, 104, 125], cmds := [{ name := [104, 115, 101, 116], args := [[123, 104, 125], [102], [118]] }] }
+def exTagG : KGroup := (exTagE, [])
+theorem exTagG_good : GoodGroup exTagG :=
+  ⟨⟨rfl, rfl, by simp [exTagG], by simp [exTagG]⟩,
+   ⟨by intro c hc; simp [exTagG, exTagE] at hc; subst hc; rfl, by simp [exTagG, exTagE], by simp [exTagG], by simp [exTagG]⟩⟩
+theorem exTagG_args : ∀ c ∈ exTagG.1.cmds ++ exTagG.2.flatMap (·.cmds), c.args ≠ [] ∧ (c.name = sXGROUP → 2 ≤ c.args.length) := by
+  intro c hc; simp [exTagG, exTagE] at hc; subst hc; exact ⟨by simp, by decide⟩
+example : GoodGroup (retagG true exTagG) := retagG_good true exTagG exTagG_good exTagG_args
+example : Group (retag true exTagE) ([].map (retag true)) := retag_group true exTagE [] exTagG_good.1
+example : (retagG true exTagG).key = [104] := by decide
+example : (runPlain .replace exCfg none exT (flat ([exTagG].map (retagG true)))).tgt.get [104]
+    = some (snapshotObj exCfg exT (retag true exTagE) []) :=
+  (replace_whole_retag true exCfg none exT [exTagG] (by intro g hg; simp at hg; subst hg; exact exTagG_good)
+    (by intro g hg; simp at hg; subst hg; exact exTagG_args) (by decide)).2 exTagG (by simp)
+example : cmdKey (rewriteCmd [123, 104, 125] [104] { name := sXGROUP, args := [[67], [123, 104, 125], [103]] }) = [104] :=
+  rewriteCmd_cmdKey _ _ _ (by decide) (by simp) (by intro _; decide)
+
 -- several DBs: the key NAME `h` also in DB 1 (absent there); the connection starts in DB 0
 def exR1 : Entry := { exR with db := 1 }
 def exG3 : KGroup := (exR1, [])
@@ -591,5 +803,26 @@ example : (workerTarget exT (runWorker false .ignore exCfg 0 none exT (flat [exG
   (ignore_whole_worker exCfg 0 none exT [exG1, exG3] rfl ex_goodW (by decide)).2.2.1 exG3 (by simp) rfl
 example : (runWorker false .ignore exCfg 0 none exT [exE0, exE1, exE2, exR1]).flatMap (·.1)
     = [Req.exists [104], Req.select 1, Req.restore [104] 4000 [4, 3] [] false] := by decide
+
+example : lastOut (runWorker false .replace exCfg 0 none exT (flat [exG1, exG3])) = .ok :=
+  (replace_whole_worker exCfg 0 none exT [exG1, exG3] rfl ex_goodW (by decide)).1
+theorem ex_goodW' : ∀ g ∈ [exG3] ++ exG1 :: [], GoodGroup g ∧ g.oneDb := by
+  intro g hg; simp at hg; rcases hg with rfl | rfl
+  · exact ex_goodW exG3 (by simp)
+  · exact ex_goodW exG1 (by simp)
+example : lastOut (runWorker false .error exCfg 0 none exT (flat ([exG3] ++ exG1 :: []))) = .errExists :=
+  (error_whole_stop_worker exCfg 0 none exT [exG3] [] exG1 _ rfl ex_goodW' (by decide)
+    (by intro p hp; simp at hp; subst hp; rfl) rfl).1
+example : ∀ d k, (d, k) ∉ [exG1, exG3].map KGroup.cell →
+    (workerTarget exT (runWorker true .ignore exCfg 0 none exT (flat [exG1, exG3]))).ks d k = exT.ks d k :=
+  (whole_worker_bisync .ignore exCfg 0 none exT [exG1, exG3] rfl ex_goodW (by decide)).1
+-- the worker over a stream with AUX entries (DB 0, then DB 1) and a function (DB −1)
+def exAux1 : Entry := { exAux with db := 1 }
+theorem ex_streamW : StreamOf [exAux, exE0, exE1, exE2, exFn, exAux1, exR1] [exG1, exG3] := by unfold StreamOf; decide
+example : (workerTarget exT (runWorker false .replace exCfg 0 none exT [exAux, exE0, exE1, exE2, exFn, exAux1, exR1])).ks 1 [104]
+    = some (snapshotObj exCfg exT exR1 []) := by
+  have h := (whole_worker_plain_stream .replace exCfg 0 none exT [exG1, exG3] _ ex_streamW rfl ex_goodW (by decide)).2.1
+    (fun g _ => rfl)
+  exact h.2 exG3 (by simp)
 
 end GunYu.Props.C20
